@@ -73,6 +73,39 @@ theorem safe_join_contained_translated (alts : List Char) (d : List Char) (ps : 
   exact ⟨extra, by rw [Paths.segments_normpath, Paths.segments_normpath, h1], h2,
     by rw [Paths.initialSlashes_normpath, Paths.initialSlashes_normpath, h3]⟩
 
+/-- The Windows device-file branch of `secure_filename` was decided at generation time
+(`os.name == "nt"` is false): the translation leaves that branch out, this pins the decision. -/
+theorem windows_branch_static : Gen.PyFns_Paths.osNameNt = false := by decide
+
+/-- `secure_filename`, as translated from the current source (NFKD as an opaque function, the
+`ascii`/`ignore` fold, the `os.sep` / `os.path.altsep` replacement loop, `"_".join(split())`, the
+strip regex and `.strip("._")`; the Windows branch is dead, see above), returns exactly the model's
+`secureFilename`, for every NFKD function and every file name. -/
+theorem secure_filename_eq (nfkd : List Char → List Char) (s : List Char) :
+    Gen.PyFns_Paths.secure_filename nfkd s = Paths.secureFilename nfkd s := by
+  unfold Gen.PyFns_Paths.secure_filename Paths.secureFilename Paths.secureAscii
+  simp only [Gen.PyFns_Paths.osSep, Gen.PyFns_Paths.osAltsep, replace_singleton, splitWs_eq, join_eq, stripChars_eq,
+    Gen.PyFns_Paths.filenameAsciiStripReSubEmpty]
+  have e1 : Gen.Paths.stripChars = ['.', '_'] := by decide
+  have e2 : Gen.Paths.joinChars = ['_'] := by decide
+  rw [e1, e2]
+  congr 4
+  have e3 : Gen.Paths.osSeps = ['/'] := by decide
+  simp only [List.isEmpty_cons, Bool.not_false, if_true, Paths.replaceSeps, e3, Pre.asciiIgnore, Paths.asciiIgnore]
+  apply List.map_congr_left
+  intro c _
+  simp
+
+/-- C14 `secure_filename_charset` on the translated definition: whatever the regenerated code
+returns uses only `[A-Za-z0-9_.-]`. -/
+theorem secure_filename_charset_translated (nfkd : List Char → List Char) (s : List Char) :
+    ∀ c ∈ Gen.PyFns_Paths.secure_filename nfkd s, Paths.allowed c = true := by
+  rw [secure_filename_eq]
+  exact Paths.secureAscii_allowed _
+
+example : Gen.PyFns_Paths.secure_filename id " ../.. /etc/pass wd\t$._".toList
+    = "etc_pass_wd".toList := by decide
+
 example : (Gen.PyFns_Paths.safe_join [] "/srv/root".toList
     ["a/../b".toList, "".toList, "c".toList]).toOption = some (some "/srv/root/b/c".toList) := by decide
 example : (Gen.PyFns_Paths.safe_join [] "/srv".toList ["a".toList, "b/../..".toList]).toOption
